@@ -177,7 +177,7 @@ def reset_script(w, st, res):
             w.push_src(P(w, 1))
         elif a == 'reset_src':
             w.reset_src(P(w, 1))
-        elif a == 'dst_move':
+        elif a in ('dst_move', 'dst_move_noeval'):     # _noeval: the integration branches are NOT updated afterwards
             n = len([k for k in w.pmap]) + 1
             w.pmap[n] = w.open_pr('bugfix/TEST-%d' % n, dst)
             gate(w, n, res)
